@@ -415,6 +415,10 @@ func (s *c18sSys) op(toks []string) {
 		emit(fmt.Sprintf("L%s>%d:%s", numOf(b.fidOI, m.Meta().ID), c18PortNum(m.Meta().Dst), c18sReqSig(m)))
 		// ---- oracle: reached an L2 side once, on the owner, unchanged
 		r.Checked("sys.l2-delivery")
+		if c18PortNum(m.Meta().Dst) == 1000 {
+			// ModuleForOtherAddresses is the engine's own inside port on the real platform: a forwarding loop
+			r.Failf("C18.sys.l2.other", s.line, "node %d forwards a clone for address %s to the module for non-local addresses", b.idx, c18sReqSig(m))
+		}
 		for _, iss := range s.allIss {
 			if iss.clone2 == m.Meta().ID {
 				s.l2seen[iss.msgID]++
